@@ -291,8 +291,9 @@ def _labelled_files(dirs, files, jpath, layout=None):
         ours[os.path.realpath(dirs[d])] = d
     out = [('cwd', files['cwd'])] if 'cwd' in files else []
     for p in jpath:
+        p = os.path.expandvars(os.path.expanduser(p))
         d = ours.get(os.path.realpath(p))
-        if d == 'cwd' and layout:
+        if d == 'cwd' and layout in ('cwd-is-user', 'cwd-is-user-symlink'):
             continue             # the working directory again, in its role as user-level directory: already counted at the top
         if d == 'cwd':
             raise CheckerDefect('C19: temp cwd is on the jupyter config path')
@@ -335,12 +336,20 @@ def _run_job(job):
                 os.mkdir(p)
         os.environ['JUPYTER_CONFIG_DIR'] = dirs['user']
         os.environ['JUPYTER_CONFIG_PATH'] = dirs['envpath']
+        if layout == 'unexpanded':
+            # the directories as a Dockerfile ENV / systemd Environment= / .env file spells them: jupyter hands such values on verbatim
+            # and every jupyter application expands them when it looks for its file
+            saved_env['HOME'] = os.environ.get('HOME')
+            os.environ['HOME'] = root
+            os.environ['JUPYTER_CONFIG_DIR'] = '~/user'
+            os.environ['JUPYTER_CONFIG_PATH'] = '$HOME/envpath'
         os.environ.pop('JUPYTER_NO_CONFIG', None)
         os.environ['PYTHONIOENCODING'] = 'utf-8'      # makes nbdime.utils.setup_std_streams leave sys.stdout alone
         os.chdir(dirs['cwd'])
         from jupyter_core.paths import jupyter_config_path
         jpath = jupyter_config_path()
-        real = [os.path.realpath(p) for p in jpath]
+        expand = lambda p: os.path.realpath(os.path.expandvars(os.path.expanduser(p)))
+        real = [expand(p) for p in jpath]
         for d in ('envpath', 'user'):
             if os.path.realpath(dirs[d]) not in real:
                 raise CheckerDefect('C19: %s dir not on jupyter_config_path(): %r' % (d, jpath))
@@ -349,12 +358,12 @@ def _run_job(job):
             if only and ci != only[0]:
                 continue
             files, steps = _gen_case(seed, ci)
-            if layout:
+            if layout in ('cwd-is-user', 'cwd-is-user-symlink'):
                 files.pop('user', None)           # there is no separate user-level directory in this layout
             digest = M.key_of([files, steps])
             if only and job.get('digest') not in (None, digest):
                 raise CheckerDefect('C19: case generation is not reproducible across processes')
-            _write_files({d: p for d, p in dirs.items() if not (layout and d == 'user')}, files)
+            _write_files({d: p for d, p in dirs.items() if not (layout in ('cwd-is-user', 'cwd-is-user-symlink') and d == 'user')}, files)
             labelled = _labelled_files(dirs, files, jpath, layout)
             first = {}
             for si, step in enumerate(steps):
@@ -451,6 +460,8 @@ def run_bounded(res):
     jobs = [{'seed': res.seed * 8191 + j, 'n': n} for j in range(njobs)]
     # the working directory doubling as the user's jupyter configuration directory (directly / through a symbolic link)
     jobs += [{'seed': res.seed * 8191 + 5000 + j, 'n': n // 2, 'layout': lay} for j in range(max(2, njobs // 8)) for lay in ('cwd-is-user', 'cwd-is-user-symlink')]
+    # configuration directories spelled with ~ / $HOME in the environment
+    jobs += [{'seed': res.seed * 8191 + 7000 + j, 'n': n // 2, 'layout': 'unexpanded'} for j in range(max(2, njobs // 8))]
     seen = set()
     for job, out in zip(jobs, common.pmap(_spawn, jobs)):
         res.evaluations += out['count']
@@ -476,7 +487,7 @@ def run_bounded(res):
     res.coverage['rule'] = (
         '%d jobs x %d generated configurations; each job runs in ONE fresh process and resolves its configurations one after the other. '
         'A configuration = nbdime_config.json in 1-3 of {temp cwd, JUPYTER_CONFIG_PATH dir, JUPYTER_CONFIG_DIR dir} (in 1/9 of the jobs the working directory '
-        'itself is the JUPYTER_CONFIG_DIR, directly or through a symbolic link), each with 1-4 of the '
+        'itself is the JUPYTER_CONFIG_DIR, directly or through a symbolic link; in 1/9 the two directories are spelled ~/user and $HOME/envpath in the environment), each with 1-4 of the '
         '7 documented shared sections / 11 entry-point sections setting 1-4 focus options they may legitimately set (log_level everywhere; web '
         'options in Web/WebTool; ignorables, Ignore, color_words in Diff/GitDiff; + merge options in Merge/GitMerge; everything in own sections) '
         'with values from small domains (booleans/None, enums, 5 ports, Ignore with 1-3 of 5 paths -> True/False/key list/None). Per configuration: '
